@@ -319,11 +319,19 @@ def rule_identity(ctx):
     import absint
     for b in eqs:
         # semantic: evaluate eq_any(self = x, other) for the three shapes of `other`
-        cases = [('same type, equal value', ('any', 'Self', ('atom', 'x')), True), ('same type, different value', ('any', 'Self', ('atom', 'y')), False),
+        me = b.impl_self or 'Self'
+        dcs = [c for bb_ in F.with_closures(b) for c in bb_.find_calls(lambda c: c.qname in ('dyn std::any::Any::downcast_ref', 'dyn std::any::Any::is'))]
+        cases = [('same type, equal value', ('any', me, ('atom', 'x')), True), ('same type, different value', ('any', me, ('atom', 'y')), False),
                  ('different type, identical representation', ('any', 'Other', ('atom', 'x')), False)]
+        # every other type the body asks about (a wrapper such as Box<Self>, Rc<Self>, ...): a value of that type holding an equal payload is
+        # a *different* key (identity is (concrete type, value)), so the answer must be false
+        for c in dcs:
+            t = c.gargs[0] if c.gargs else None
+            if t and t != me and not any(cs[1][1] == t for cs in cases):
+                cases.append(('the distinct type %s wrapping an equal value' % t, ('any', t, ('atom', 'x')), False))
         ok = True
         why = ''
-        dc_ok = all(c.gargs and c.gargs[0] == (b.impl_self or '') for c in b.find_calls(lambda c: c.qname == 'dyn std::any::Any::downcast_ref'))
+        dc_ok = any(c.gargs and c.gargs[0] == me for c in dcs)
         for name, other, want in cases:
             try:
                 r = absint.evaluate(F, b, [('atom', 'x'), other])
